@@ -425,6 +425,36 @@ def leg_with(ns, res, spec):
             res.count('header_never_data_checks')
             if rws != exp:
                 res.violation('py:header-line-processed-as-record', '[py] %r with header: rows %r, expected %r' % (q, rws, exp), {'leg': 'with', 'query_text': q})
+        # the input table named by the query itself (FROM ... resolved by the caller's registry, no ready input iterator): the modifier overrides the
+        # registry's flag for it just as well, with and without a JOIN
+        for flag in (True, False):
+            for mod in ('', 'header', 'noheader'):
+                for join in (False, True):
+                    eff = flag if mod == '' else mod.startswith('header')
+                    q = ('select a1, NR, b2, bNR from in_1.csv join jn_1.csv on a1 == b1' if join else 'select a1, NR from in_1.csv') + ((' WITH (%s)' % mod) if mod else '')
+                    exp = with_expectation(eff) if join else [[r[0], r[1]] for r in with_expectation(eff)]
+                    err = rws = None
+                    reg = None
+                    try:
+                        reg = ns.csv.FileSystemCSVRegistry(d, ',', 'quoted', 'utf-8', flag, None)
+                        buf = io.StringIO(newline='')
+                        ns.rbql.query(q, None, ns.csv.CSVWriter(buf, False, None, ',', 'quoted'), [], reg)
+                        rr = refcsv.read_text(buf.getvalue(), ',', 'quoted', None, eff)
+                        rws = [[int(v) if v.isdigit() else v for v in r] for r in rr.records]
+                    except Exception as e:
+                        err = '%s: %s' % (util.error_class(e), str(e)[:120])
+                    finally:
+                        try:
+                            if reg is not None:
+                                reg.finish()
+                        except Exception:
+                            pass
+                    res.evaluations += 1
+                    res.count('with_modifier_from_clause_runs')
+                    res.distinct_disjoint += 1
+                    if err is not None or rws != exp:
+                        res.violation('py:with-modifier-not-applied:from-clause', '[py] rbql.query(%r, None, ..., FileSystemCSVRegistry(has_header=%s)): rows %r error %r ; expected %r (effective header = %s)' % (q, flag, rws, err, exp, eff),
+                                      {'leg': 'with', 'query_text': q, 'flag': flag, 'modifier': mod, 'join': join, 'from_clause': True})
         # the command line
         e = dict(os.environ, PYTHONPATH=env.PY_PKG_DIR, PYTHONDONTWRITEBYTECODE='1', HOME=d)
         for flag, mod in ((True, ''), (False, 'header'), (True, 'noheader'), (False, '')):
@@ -460,7 +490,7 @@ def run_shard(spec, res):
 def summarize(tier, seed, m):
     return {
         'rule': 'random headers of 1-5 distinct names over printable ASCII incl. both quotes, backslash, backtick, brackets, #, =, %%, spaces, tab, newline, non-ASCII (and prefix / suffix / case variants of each other; names containing an a.ident / b.ident token excluded as quantified) over tables whose cell (r, c) is the unique token r{r}c{c}; for every column and every spelling (a["..."], a[\'...\'], a.name when identifier-safe, bare name in direct mode - also for columns named like positional variables of their own table, a3 as the name of the first column -) the query `select <var>, NR` must return exactly that column and NR = 1.. ; sources: list column names, pandas columns, sqlite columns, CSV header line (query_csv); WITH (header | noheader | headers | noheaders) x caller flag x {input, input + join} on CSV incl. the command line. dataframes whose index carries a name, or is a named two- / three-level MultiIndex, in half of the pandas cases; distinct_nontrivial = distinct (source, header, column, spelling) lookups.',
-        'required': ['js_lookups', 'js_lookups:bt', 'named_target:update', 'named_target:except', 'named_target:joinkey', 'list_lookups', 'list_lookups:dq', 'list_lookups:sq', 'list_lookups:attr', 'direct_mode_lookups', 'direct_mode_positional_name_lookups', 'pandas_lookups', 'pandas_integer_label_frames', 'pandas_named_index_frames', 'pandas_named_multiindex_frames', 'sqlite_lookups', 'sqlite_tables:generated', 'sqlite_tables:view', 'csv_lookups', 'with_modifier_runs', 'with_modifier_named_join_runs', 'header_never_data_checks', 'cli_with_modifier_runs'],
+        'required': ['with_modifier_from_clause_runs', 'js_lookups', 'js_lookups:bt', 'named_target:update', 'named_target:except', 'named_target:joinkey', 'list_lookups', 'list_lookups:dq', 'list_lookups:sq', 'list_lookups:attr', 'direct_mode_lookups', 'direct_mode_positional_name_lookups', 'pandas_lookups', 'pandas_integer_label_frames', 'pandas_named_index_frames', 'pandas_named_multiindex_frames', 'sqlite_lookups', 'sqlite_tables:generated', 'sqlite_tables:view', 'csv_lookups', 'with_modifier_runs', 'with_modifier_named_join_runs', 'header_never_data_checks', 'cli_with_modifier_runs'],
         'assumptions': ['a.name only for names that are not Python / JS keywords and do not collide with members of the record object; direct mode only for names that do not shadow the engine\'s own locals (documented limitations)'],
     }
 
